@@ -761,6 +761,46 @@ func grammarShards(tier string) []mc.Shard {
 					}
 					distinct[want] = struct{}{}
 				}
+				// the same stream merged into a paginated receiver whose buffer is already
+				// past its compaction trigger (100 scattered unit entries on each side)
+				far := false
+				for _, b := range blocks {
+					far = far || b.farPaged
+				}
+				if !far {
+					pk := Kind{K: 'P'}
+					rc := ddsketch.NewDDSketch(m, pk.New(), pk.New())
+					exp := NewSkModel(pk, ms, m)
+					for j := 0; j < 100; j++ {
+						v := m.Value(2000 + 3*j)
+						rc.Add(v)
+						rc.Add(-v)
+						exp.Add(v, 1)
+						exp.Add(-v, 1)
+					}
+					err := rc.DecodeAndMergeWith(stream)
+					res.Evaluations++
+					for _, b := range blocks {
+						for _, bin := range b.bins {
+							if b.neg {
+								exp.Neg.Add(int(bin.Index), bin.Count)
+							} else {
+								exp.Pos.Add(int(bin.Index), bin.Count)
+							}
+						}
+					}
+					exp.Zero = zeroW
+					if want := exp.Content(); err != nil || SketchContent(rc) != want {
+						got := "error: " + fmt.Sprint(err)
+						if err == nil {
+							got = SketchContent(rc)
+						}
+						res.Violations = append(res.Violations, mc.Violation{Property: "C07", Clause: "C07.accepts-valid-streams", Scenario: name, Seed: "stream",
+							History: []string{fmt.Sprintf("% x", stream), "P-with-100-buffered"},
+							Detail:  fmt.Sprintf("the well-formed stream % x merged into a paginated receiver holding 100 scattered unit entries per side\n  got:  %s\n  want: %s", stream, got, want)})
+						return false
+					}
+				}
 				return true
 			}
 			n := 0
@@ -844,6 +884,29 @@ func grammarShards(tier string) []mc.Shard {
 				exp.Zero = c.Zero
 				if err != nil || SketchContent(dec) != exp.Content() {
 					fails = append(fails, mc.Fail{Clause: "C07.accepts-valid-streams", Detail: fmt.Sprintf("stream % x into %s: err=%v want %s", stream, t, err, exp.Content())})
+				}
+			}
+			if history[1] == "P-with-100-buffered" {
+				pk := Kind{K: 'P'}
+				rc := ddsketch.NewDDSketch(m, pk.New(), pk.New())
+				exp := NewSkModel(pk, ms, m)
+				for j := 0; j < 100; j++ {
+					v := m.Value(2000 + 3*j)
+					rc.Add(v)
+					rc.Add(-v)
+					exp.Add(v, 1)
+					exp.Add(-v, 1)
+				}
+				err := rc.DecodeAndMergeWith(stream)
+				for _, k := range sortedKeys(c.Pos) {
+					exp.Pos.Add(k, c.Pos[k])
+				}
+				for _, k := range sortedKeys(c.Neg) {
+					exp.Neg.Add(k, c.Neg[k])
+				}
+				exp.Zero = c.Zero
+				if err != nil || SketchContent(rc) != exp.Content() {
+					fails = append(fails, mc.Fail{Clause: "C07.accepts-valid-streams", Detail: fmt.Sprintf("stream % x merged into a paginated receiver holding 100 scattered unit entries per side: err=%v want %s", stream, err, exp.Content())})
 				}
 			}
 			return fails, nil
@@ -1020,6 +1083,52 @@ func handBuiltProtoShard() mc.Shard {
 								}
 							}
 						}
+					}
+				}
+			}
+		}
+		// both ends of the int32 index range (one end per message: array-backed and
+		// paged stores cannot span both): runs that end exactly at MaxInt32 or start
+		// exactly at MinInt32, with the same index also given sparsely
+		for _, top := range []bool{true, false} {
+			for n := 1; n <= 3; n++ {
+				for _, sparse := range []bool{false, true} {
+					edge := int32(math.MaxInt32)
+					off := edge - int32(n) + 1
+					if !top {
+						edge = math.MinInt32
+						off = edge
+					}
+					st := &sketchpb.Store{ContiguousBinIndexOffset: off}
+					exp := map[int]float64{}
+					for i := 0; i < n; i++ {
+						c := []float64{2, 0.5, 1}[i]
+						st.ContiguousBinCounts = append(st.ContiguousBinCounts, c)
+						exp[int(off)+i] += c
+					}
+					if sparse {
+						st.BinCounts = map[int32]float64{edge: 4}
+						exp[int(edge)] += 4
+					}
+					msg := &sketchpb.DDSketch{Mapping: m.ToProto(), PositiveValues: st, ZeroCount: 0.5}
+					raw, _ := proto.Marshal(msg)
+					var back sketchpb.DDSketch
+					if err := proto.Unmarshal(raw, &back); err != nil {
+						fails = append(fails, mc.Fail{Clause: "C09.mixed-bins-add-up", Detail: "unmarshal: " + err.Error()})
+						continue
+					}
+					for _, t := range []Kind{{K: 'S'}, {K: 'P'}} {
+						dec, err := ddsketch.FromProtoWithStoreProvider(&back, t.Provider())
+						res.Evaluations++
+						want := "zero=0.5 pos={" + ModelContent(&model.MapStore{M: exp}) + "} neg={}"
+						if err != nil || SketchContent(dec) != want {
+							got := fmt.Sprint(err)
+							if err == nil {
+								got = SketchContent(dec)
+							}
+							fails = append(fails, mc.Fail{Clause: "C09.mixed-bins-add-up", Detail: fmt.Sprintf("message %v (indexes at the end of the int32 range) rebuilt with %s stores\n  got:  %s\n  want: %s", msg, t, got, want)})
+						}
+						distinct[want] = struct{}{}
 					}
 				}
 			}
